@@ -189,6 +189,8 @@ type World struct {
 	specDefs    map[string]string // spec function name -> SMT definition text (filled lazily)
 	specDeps    map[string][]string
 	specHeap    map[string][]string
+	ghostFields map[string]map[string]*ghostFieldInfo // owner type string -> field name -> info
+	pendingGhosts []*GhostField
 	specHeapBusy map[string]bool
 	errs        []string
 }
@@ -200,7 +202,7 @@ func newWorld() *World {
 		lemmas: map[string]*Lemma{}, lemmaPkg: map[string]*PkgInfo{}, contracts: map[string]*FuncContract{},
 		tagNames: map[int]string{}, globals: map[string]string{}, globalSort: map[string]string{},
 		typeIDs: map[string]int{}, compSorts: map[string]string{}, ghostFns: map[string]string{},
-		specDefs: map[string]string{}, specDeps: map[string][]string{}, specHeap: map[string][]string{}, specHeapBusy: map[string]bool{},
+		specDefs: map[string]string{}, specDeps: map[string][]string{}, specHeap: map[string][]string{}, specHeapBusy: map[string]bool{}, ghostFields: map[string]map[string]*ghostFieldInfo{},
 	}
 }
 
@@ -553,4 +555,41 @@ func selApp(si *StructInfo, k int, x string) string {
 		}
 	}
 	return app(selName(si, k), x)
+}
+
+type ghostFieldInfo struct {
+	Tag int
+	T   types.Type
+}
+
+// ghostField looks up a specification-only field of struct type t.
+func (w *World) ghostField(t types.Type, name string) *ghostFieldInfo {
+	w.resolveGhosts()
+	if m, ok := w.ghostFields[types.TypeString(t, nil)]; ok {
+		return m[name]
+	}
+	return nil
+}
+
+func (w *World) resolveGhosts() {
+	if len(w.pendingGhosts) == 0 {
+		return
+	}
+	pend := w.pendingGhosts
+	w.pendingGhosts = nil
+	for _, g := range pend {
+		owner := w.resolveType(nil, g.Owner)
+		ft := w.resolveType(nil, g.Type)
+		key := types.TypeString(owner, nil)
+		if w.ghostFields[key] == nil {
+			w.ghostFields[key] = map[string]*ghostFieldInfo{}
+		}
+		w.nextTag++
+		w.tagNames[w.nextTag] = key + "." + g.Name + " (ghost)"
+		// a ghost field gets a heap component of its own (a distinct named type), so that writing it never creates
+		// a new version of the component real fields of the same sort live in
+		gname := "ghost$" + sanitize(key+"."+g.Name)
+		named := types.NewNamed(types.NewTypeName(0, nil, gname, nil), ft.Underlying(), nil)
+		w.ghostFields[key][g.Name] = &ghostFieldInfo{Tag: w.nextTag, T: named}
+	}
 }
